@@ -52,7 +52,9 @@ impl FromRgb<AnsiKind> for Ansi {
                 let (r, g, b) = rgb.as_f64();
                 // convert rgb to hsv
                 // let hsv = Hsv::from(rgb);
-                let value = f64::round(g / 50_f64);
+                // brightness (HSV value in percent) of the colour, as in color-convert
+                let (_, max) = rgb.get_min_max();
+                let value = f64::round(max / 255_f64 * 100_f64 / 50_f64);
                 if value == 0_f64 {
                     return Ansi(30);
                 }
